@@ -509,10 +509,12 @@ class CryptographyEngine(api.CryptographicEngine):
                 mode = mode()
 
         # Pad the plain text if needed (separate methods for testing purposes)
+        # RC4 is a stream cipher: the cipher mode is ignored above, and there
+        # is no block size to pad to.
         if cipher_mode in [
                 enums.BlockCipherMode.CBC,
                 enums.BlockCipherMode.ECB
-        ]:
+        ] and encryption_algorithm != enums.CryptographicAlgorithm.RC4:
             plain_text = self._handle_symmetric_padding(
                 self._symmetric_key_algorithms.get(encryption_algorithm),
                 plain_text,
@@ -894,11 +896,11 @@ class CryptographyEngine(api.CryptographicEngine):
             )
 
         # Unpad the plain text if needed (separate methods for testing
-        # purposes)
+        # purposes). RC4 is a stream cipher: nothing was padded.
         if cipher_mode in [
                 enums.BlockCipherMode.CBC,
                 enums.BlockCipherMode.ECB
-        ]:
+        ] and decryption_algorithm != enums.CryptographicAlgorithm.RC4:
             try:
                 plain_text = self._handle_symmetric_padding(
                     self._symmetric_key_algorithms.get(decryption_algorithm),
